@@ -203,7 +203,8 @@ def big_programs(tier):
     for n in sizes:
         out.append(("seq-%d" % n, N("Seq", "u", a=[N("Pop", "n", a=[N("Int", n=[1])]) for _ in range(n)] + [N("Int", n=[1])])))
         out.append(("assert-seq-%d" % n, N("Seq", "u", a=[N("Assert", "n", a=[argu(0)]) for _ in range(n)] + [N("Int", n=[1])])))
-    for d in ([40, 120] if tier == "quick" else [40, 120, 250]):
+    # (the Json module that feeds recipes to TLC stops at 255 nesting levels = expression depth 126)
+    for d in ([40, 120] if tier == "quick" else [40, 100, 120, 125]):
         e = N("Pop", "n", a=[N("Int", n=[1])])
         for _ in range(min(d // 4, 16)):      # If.type_of() is exponential in the nesting depth at construction
             e = N("If", "n", a=[argu(0), e])
